@@ -60,6 +60,19 @@ func Funcs() vuego.FuncMap {
 			return strings.Repeat(s, n)
 		},
 		"isBig": func(n int) bool { return n > 10 },
+		// functions that take the render context first and / or a variadic tail whose element
+		// type differs from the last fixed parameter (all total: they never panic themselves)
+		"joinn": func(ctx *vuego.VueContext, n int, parts ...string) string {
+			return fmt.Sprintf("%d:%s", n, strings.Join(parts, "+"))
+		},
+		"sumall": func(label string, nums ...int) string {
+			t := 0
+			for _, x := range nums {
+				t += x
+			}
+			return fmt.Sprintf("%s=%d", label, t)
+		},
+		"ctxonly": func(ctx *vuego.VueContext, v any) string { return fmt.Sprint(v) },
 	}
 }
 
@@ -209,6 +222,14 @@ func All() []Program {
 			"page.vuego":   `<section><template include="thread.vuego" :node="tree"></template></section>` + end,
 			"thread.vuego": `<ul><li><b>{{ node.name }}</b><template v-if="node.kid" include="thread.vuego" :node="node.kid"></template></li></ul>`,
 		}, Data: deepTree(70), Feat: []string{"deep", "include"}},
+		// slot templates a page hands to its layout, filled by <slot> elements in the layout file
+		// (twice, and in a loop) and in a component the layout includes; the content binds a
+		// variable and contains a nested <slot> that must show its fallback
+		{Name: "layout-slot-handover", FileOnly: true, Files: map[string]string{
+			"page.vuego":          "---\nlayout: shell\ntitle: HandTitle\n---\n" + `<template #head="hp"><b>{{ who }}</b><template :hx="who"></template><i>{{ hx }} {{ hp.n }}</i><slot name="inner">inner-fallback</slot></template><template v-slot:foot><em>foot {{ title }}</em></template><article>{{ who }}</article>`,
+			"layouts/shell.vuego": `<html><head><title>{{ title }}</title></head><body><header><slot name="head" :n="1"></slot></header><ul><li v-for="k in rows"><slot name="head" :n="k"></slot></li></ul><div v-html="content"></div><template include="frame.vuego"></template><footer><slot name="foot">no foot</slot></footer>` + end + `</body></html>`,
+			"frame.vuego":         `<section><slot name="foot">frame-fallback</slot><slot name="nope">nope-fallback</slot></section>`,
+		}, Data: map[string]vals.V{"who": s("handWHO"), "rows": vals.List("[]any", vals.Int(2), vals.Int(3))}, Feat: []string{"layout", "front-matter", "slot", "handover"}},
 		// front-matter plus writes into the page's root scope; rendered without any data the
 		// root scope is (a copy of) the cached front-matter
 		{Name: "fm-root-write", FileOnly: true, Files: map[string]string{
